@@ -388,6 +388,8 @@ static int processAndInsertNode(KSI_TreeBuilder *builder, KSI_TreeNode *node) {
 		if (tmp != NULL) {
 			res = KSI_TreeNode_join(builder->ctx, builder->hsr, tmp, localRoot == NULL ? node : localRoot, &localRoot);
 			if (res != KSI_OK) goto cleanup;
+			/* The processor's node is a part of the local root now. */
+			tmp = NULL;
 		}
 	}
 
@@ -395,9 +397,19 @@ static int processAndInsertNode(KSI_TreeBuilder *builder, KSI_TreeNode *node) {
 	if (res != KSI_OK) goto cleanup;
 
 	tmp = NULL;
+	localRoot = NULL;
 
 cleanup:
 
+	if (localRoot != NULL) {
+		/* The nodes created here are released, the caller keeps its node. */
+		if (node->parent != NULL) {
+			if (node->parent->leftChild == node) node->parent->leftChild = NULL;
+			if (node->parent->rightChild == node) node->parent->rightChild = NULL;
+			node->parent = NULL;
+		}
+		KSI_TreeNode_free(localRoot);
+	}
 	KSI_TreeNode_free(tmp);
 
 	return res;
